@@ -279,3 +279,51 @@ Theorem best_seen_file_holds_last_text :
     b_disk A (brun A best_seen_write_awaited evs) = last_text A evs.
 Proof. intros. exact (awaited_file_is_last_text A evs). Qed.
 Print Assumptions best_seen_file_holds_last_text.
+
+(** ** end to end.  A run that returns (with a report or with an error), under any schedule of the
+    select loop whose accepted sends are the controller's report items: the CSV holds exactly the
+    items of the processed evaluations, in order, the final counters are the numbers of its
+    records with and without a value, and the best-seen file is consistent with it. *)
+Theorem files_agree_with_the_run :
+  forall (V M T : Type) (tcmp : T -> T -> comparison) (mean : list T -> T) (hit : T -> bool)
+         (max_pop min_reeval ss : nat) (nc : N) (budget : option N) (init_val : V) (os : N -> orc V M),
+    1 <= ss ->
+    (forall a b : T, tcmp b a = CompOpp (tcmp a b)) ->
+    (forall a b c : T, tcmp a b <> Gt -> tcmp b c <> Gt -> tcmp a c <> Gt) ->
+    forall (ls : list (label T)) (c : ctl V M T) (r : result V T) (evs : list (sev V M T)),
+      exec tcmp mean hit max_pop min_reeval ss budget init_val os
+           (init T min_reeval ss nc budget init_val os) ls = Ret c r ->
+      s_sent V M T (srun V M T tcmp (N.to_nat channel_buf_size) evs) = c_items c ->
+      let w := sfinish V M T tcmp sync_launch_drains_writer_before_return
+                       (srun V M T tcmp (N.to_nat channel_buf_size) evs) in
+      w_rows V M T w = c_items c /\
+      c_acc c = n_some V M T (w_rows V M T w) /\ c_rej c = n_none V M T (w_rows V M T w) /\
+      match w_best V M T w with
+      | None => forall it, In it (c_items c) -> it_res it = None
+      | Some (v, b) =>
+          (exists it, In it (c_items c) /\ it_res it = Some b /\ it_val it = v) /\
+          (forall it y, In it (c_items c) -> it_res it = Some y -> tcmp b y <> Gt)
+      end.
+Proof.
+  intros V M T tcmp mean hit max_pop min_reeval ss nc budget init_val os Hss Hsym Htr ls c r evs He Hs w.
+  assert (Hw : w = wrun V M T tcmp (c_items c)).
+  { unfold w. rewrite <- Hs. apply drained_files_hold_all_sent. reflexivity. }
+  pose proof (writer_files_consistent V M T tcmp Hsym Htr (c_items c)) as [Hrows Hbest].
+  pose proof (counts_and_items_agree V M T tcmp mean hit max_pop min_reeval ss nc budget init_val os Hss ls) as Hc.
+  rewrite He in Hc. destruct Hc as (Ha & Hr & _).
+  rewrite Hw. rewrite Hrows. repeat split; try assumption.
+Qed.
+Print Assumptions files_agree_with_the_run.
+
+Example files_agree_nonvacuous :
+  match exec Z.compare (fun l => hd 0%Z l) (fun _ => false) 100 20 1 (Some 3%N) 7 ex_os
+             (init Z 20 1 2%N (Some 3%N) 7 ex_os)
+             [LDone 1%N (OVal 5%Z) true; LDone 0%N OReject true; LDone 2%N (OVal 4%Z) true]
+  with
+  | Ret c r =>
+      let evs := EvSend nat unit Z (hd (mkItem 0%N 0%N 0 None None) (c_items c)) :: EvWrite nat unit Z ::
+                 map (EvSend nat unit Z) (tl (c_items c)) in
+      s_sent nat unit Z (srun nat unit Z Z.compare (N.to_nat channel_buf_size) evs) = c_items c /\ length (c_items c) = 3
+  | _ => False
+  end.
+Proof. vm_compute. split; reflexivity. Qed.
